@@ -411,7 +411,7 @@ pub fn parse_amount_with_currency(input: &str, currency: &str) -> Result<f64, Pa
     let max_decimals = get_currency_decimals(currency) as usize;
     let decimal_places = input
         .find([',', '.'])
-        .map(|pos| input[pos + 1..].trim_end_matches('0').len())
+        .map(|pos| input.len() - pos - 1)
         .unwrap_or(0);
     if decimal_places > max_decimals {
         return Err(ParseError::InvalidFormat {
